@@ -14,6 +14,26 @@ type flow struct {
 	next *State
 	brk  []*State
 	cont []*State
+	// labelled break/continue states that target an enclosing (not the innermost) statement
+	lbrk  []labState
+	lcont []labState
+}
+
+type labState struct {
+	label string
+	st    *State
+}
+
+// takeLabelled splits the labelled states of a flow into those targeting label (returned) and the rest.
+func takeLabelled(ls []labState, label string) (mine []*State, rest []labState) {
+	for _, l := range ls {
+		if label != "" && l.label == label {
+			mine = append(mine, l.st)
+		} else {
+			rest = append(rest, l)
+		}
+	}
+	return mine, rest
 }
 
 type engineError struct{ msg string }
